@@ -88,6 +88,9 @@ func (l *logWriter) count(sub string) int {
 	return n
 }
 
+// stuckConversations counts conversations in which the connection handler did not finish.
+var stuckConversations int
+
 // RunConv runs the real server on the scripted connection and returns the case
 // line (inputs as actually delivered + observed behaviour).
 func RunConv(c ConvCase) *Sx {
@@ -114,19 +117,31 @@ func RunConv(c ConvCase) *Sx {
 	s.EnableRRVS = c.Cfg.RRVS
 
 	var phases [][]Raw
-	var closedEarly bool
+	served := true
+	// goroutines of go-smtp left behind by an EARLIER conversation (only possible when the code under
+	// test is broken) must not stall this one: do not synchronise on them
+	be.NoSync = smtpGoroutinesAlive()
+	if stuckConversations >= 3 {
+		// the implementation keeps hanging: stop burning the time budget, report what was observed
+		return nil
+	}
 	if c.Cfg.TLSConfig || c.Cfg.ImplicitTLS {
-		phases = runTLSConvImpl(s, be, c)
+		phases, served = runTLSConvImpl(s, be, c)
 	} else {
 		sc := NewScriptConn(c.Phases[0])
 		sc.OnWrite = func(p []byte) { be.AddWire(p); be.SyncPoint() }
 		sc.OnRead = be.SyncPoint
 		be.Baseline = runtime.NumGoroutine() + 2 // the connection goroutine and Shutdown waiter (Serve itself returns early)
-		serveOne(s, sc)
+		served = serveOne(s, sc)
 		phases = [][]Raw{append(append([]Raw(nil), sc.Log...), sc.Remaining()...)}
 	}
-	okWait := be.Wait()
-	_ = closedEarly
+	okWait := !be.NoSync && be.Wait()
+	if be.NoSync {
+		okWait = served
+	}
+	if !served {
+		stuckConversations++
+	}
 
 	be.mu.Lock()
 	evs := L()
@@ -149,7 +164,7 @@ func RunConv(c ConvCase) *Sx {
 	}
 	res := L(A("conv"), c.Cfg.Sx(), c.Script.Sx(), L(A("phases"), ph),
 		L(A("obs"), L(A("events"), evs), L(A("deliveries"), dl),
-			L(A("panics"), Num(int64(lg.count("panic serving")))), L(A("waited"), B(okWait))))
+			L(A("panics"), Num(int64(lg.count("panic serving")))), L(A("waited"), B(okWait)), L(A("served"), B(served))))
 	if len(c.Extra) > 0 {
 		res.Add(L(append([]*Sx{A("expect")}, c.Extra...)...))
 	}
@@ -186,7 +201,7 @@ func serveOn(s *smtp.Server, l *oneListener, conn netConn) bool {
 	case <-l.conn.closed:
 	case <-time.After(10 * time.Second):
 	}
-	ctx, cancel := context.WithTimeout(context.Background(), 20*time.Second)
+	ctx, cancel := context.WithTimeout(context.Background(), 4*time.Second)
 	defer cancel()
 	// Shutdown closes the listener and waits for the connection's goroutine
 	err := s.Shutdown(ctx)
